@@ -348,6 +348,7 @@ func c02Trace(ctx *core.Ctx, idx int) core.Result {
 	}
 	res.Add("trace_events", len(evs))
 	res.Add("pipelines", len(ps))
+	res.SetMax("max_iterator_contexts_forked_by_one_statement", maxForksSeen)
 	res.SetMax("max_pipeline_depth", ps[0].Depth())
 	for _, p := range ps {
 		res.Tag("stage:" + p.Kind)
@@ -372,8 +373,11 @@ func c02Trace(ctx *core.Ctx, idx int) core.Result {
 }
 
 // runCalcOnly executes a session and returns the concatenated program output.
+var maxForksSeen int // largest number of iterator contexts one statement of a calc-only session forked (evidence)
+
 func runCalcOnly(stmts []ast.Node, o diffOpts) (out string, abort string) {
 	ses := calcrun.NewSession()
+	ses.ForkLimit = 20000 // (the pipelines fork a few hundred iterator contexts at most; a runaway loop is cut short)
 	if o.Stress == "tight" {
 		setTight(true)
 		defer setTight(false)
@@ -388,6 +392,9 @@ func runCalcOnly(stmts []ast.Node, o diffOpts) (out string, abort string) {
 			return out, fmt.Sprintf("statement %d executed as %d statements", i, len(obs))
 		}
 		ob := obs[0]
+		if ob.Forks > maxForksSeen {
+			maxForksSeen = ob.Forks
+		}
 		switch {
 		case ob.Parse != nil:
 			return out, fmt.Sprintf("statement %d rejected: %s", i, ob.Parse.Msg)
